@@ -86,6 +86,8 @@ def _val(c):
         return float('nan')
     if _CUR.get('near') and float(c) == 2.0:
         return 1.0 + 1e-9            # a revision that differs from 1.0 in the tenth digit is a different value
+    if _CUR.get('zero') and float(c) == 2.0:
+        return 0.0                   # zero is a value like any other (not a stand-in for "nothing published")
     return float(c)
 
 
@@ -95,7 +97,7 @@ def flatten(history):
     for op in history:
         if op[0] == 'merge':
             pubs.append((op[1], op[2]))
-        elif op[0] in ('mergelist', 'plain2'):
+        elif op[0] in ('mergelist', 'plain2', 'mixedlist'):
             for vd, si in op[1:]:
                 pubs.append((vd, si))
         elif op[0] == 'plain':
@@ -232,7 +234,7 @@ def _show(v):
 
 
 DF = [pd.Timestamp('2021-03-31'), pd.Timestamp('2021-06-30')]            # observation dates AFTER every stamp and read time (forecasts, forward-dated rows)
-_CUR = {'dates': D, 'reversed': False, 'near': False, 'tz': False}
+_CUR = {'dates': D, 'reversed': False, 'near': False, 'tz': False, 'zero': False}
 _UTC = datetime.timezone.utc
 _TZ2 = datetime.timezone(datetime.timedelta(hours=2))
 
@@ -343,6 +345,8 @@ def show_history(history):
             parts.append('merge(%s @s%d)' % (sv(op[1]), op[2] + 1))
         elif op[0] == 'plain':
             parts.append('merge(plain %s, asof=s%d)' % (sv(op[1]), op[2] + 1))
+        elif op[0] == 'mixedlist':
+            parts.append('bi_merge(store, [plain %s, Bi(%s @s%d)], asof=s%d)' % (sv(op[1][0]), sv(op[2][0]), op[2][1] + 1, op[1][1] + 1))
         elif op[0] == 'plain2':
             parts.append('bi_merge(plain %s, plain %s, asof=s%d, existing_data=s%d)' % (sv(op[1][0]), sv(op[2][0]), op[2][1] + 1, op[1][1] + 1))
         else:
@@ -363,6 +367,7 @@ class History(BfsSuite):
         self.reversed = False               # True: versions list their observation dates newest first
         self.near = False                   # True: the cell value 2 stands for 1.0 + 1e-9
         self.tz = False                     # True: stamps are aware UTC datetimes, read times the same instants spelt in +02:00
+        self.zero = False                   # True: the cell value 2 stands for 0.0
 
     def initial(self):
         return [[]]
@@ -381,6 +386,7 @@ class History(BfsSuite):
         _CUR['reversed'] = bool(self.reversed)
         _CUR['near'] = bool(self.near)
         _CUR['tz'] = bool(self.tz)
+        _CUR['zero'] = bool(self.zero)
         pubs = flatten(history)
         n = len(pubs)
         if n == 0:
@@ -391,7 +397,7 @@ class History(BfsSuite):
             raise ValueError('history with decreasing stamps: %r' % (history,))
         H = show_history(history) + (' [versions as one-column frames]' if self.container == 'frame' else '') + (
             ' [observation dates d1, d2 = %s, %s: after every stamp]' % (DF[0].date(), DF[1].date()) if self.dates == 'future' else '') + (
-            ' [versions list d2 before d1]' if self.reversed else '') + (' [the value 2 is 1.0 + 1e-9]' if self.near else '') + (
+            ' [versions list d2 before d1]' if self.reversed else '') + (' [the value 2 is 1.0 + 1e-9]' if self.near else '') + (' [the value 2 is 0.0]' if self.zero else '') + (
             ' [stamps are aware UTC datetimes, read times the same instants written in +02:00]' if self.tz else '')
         model = Model(pubs)
         has_list = any(op[0] != 'merge' for op in history)
@@ -402,6 +408,8 @@ class History(BfsSuite):
             sers = [mk(vd) for vd, si in items]                       # fresh version objects of this op
             sers0 = [snap(x) for x in sers]                           # ... as the publisher built them, before Bi / bi_merge see them
             bis = [] if op[0] in ('plain', 'plain2') else [Bi(x, stamp(si)) for x, (vd, si) in zip(sers, items)]
+            if op[0] == 'mixedlist':
+                bis = bis[1:]                                         # the first member of the list stays a plain series, stamped by bi_merge through asof
             before = [snap(store)] + [snap(b) for b in bis]
             if op[0] == 'merge':
                 new = bi_merge(store, bis[0])
@@ -409,6 +417,8 @@ class History(BfsSuite):
                 new = bi_merge(store, list(bis))
             elif op[0] == 'plain':
                 new = bi_merge(store, sers[0], asof=stamp(op[2]))
+            elif op[0] == 'mixedlist':
+                new = bi_merge(store, [sers[0], bis[0]], asof=stamp(op[1][1]))
             elif op[0] == 'plain2':
                 if store is not None:
                     raise ValueError('plain2 is a first operation')
@@ -627,6 +637,7 @@ def check_history(case):
     _VISITOR.reversed = case.get('reversed', False)
     _VISITOR.near = case.get('near', False)
     _VISITOR.tz = case.get('tz', False)
+    _VISITOR.zero = case.get('zero', False)
     out, key, exp = _VISITOR.visit(case['history'])
     return out
 
@@ -667,6 +678,13 @@ def gen_axes(tier):
                         yield {'history': [['merge', v0, si], ['merge', v1, sj]], 'near': True}
                     if (si, sj) != (0, 0):
                         yield {'history': [['merge', v0, si], ['merge', v1, sj]], 'tz': True}
+                    if 2.0 in v0 + v1:
+                        yield {'history': [['merge', v0, si], ['merge', v1, sj]], 'zero': True}
+                    if si == sj or tier != 'quick':
+                        # one list mixing a plain series (stamped through asof) and a Bi frame: the order of the list is the order of publication
+                        yield {'history': [['merge', [1.0, 1.0], 0], ['mixedlist', [v0, sj], [v1, sj]]]}
+                        if tier != 'quick':
+                            yield {'history': [['mixedlist', [v0, si], [v1, sj]]]}
                     if (v0[0] is not None and v0[1] is not None) or (v1[0] is not None and v1[1] is not None):
                         yield {'history': [['merge', v0, si], ['merge', v1, sj]], 'reversed': True}
                         if tier != 'quick':
@@ -817,7 +835,7 @@ def suites(tier, seed):
               bounds=dict(common, max_publications=3)),
         Suite('axes', lambda: gen_axes(tier), check_history,
               rule='two-merge histories over all pairs of versions (%s) with (1) the observation dates lying AFTER every stamp and every read time (forward-dated rows: what '
-                   'is published by T is read at T whatever date it is about), (2) versions that list their observation dates newest first, (3) revisions that differ from the stored value in the tenth digit (1.0 + 1e-9), (4) tz-aware UTC stamps read at the same instants written in the +02:00 zone; same checks as the history suite'
+                   'is published by T is read at T whatever date it is about), (2) versions that list their observation dates newest first, (3) revisions that differ from the stored value in the tenth digit (1.0 + 1e-9), (4) tz-aware UTC stamps read at the same instants written in the +02:00 zone, (5) the value 0.0, (6) one list mixing a plain series and a Bi frame; same checks as the history suite'
                    % ('stamp pairs %s' % QUICK_STAMP_PAIRS if tier == 'quick' else 'all stamp pairs; reversed versions also through the list form'),
               bounds=dict(common, max_publications=2)),
         Suite('frameform', lambda: gen_frameform(tier), check_history,
